@@ -154,6 +154,7 @@ THR = "func Throttling[A any](ctx context.Context, in <-chan A, ops int, interva
 mut('C13-pacer-shared-per-rate', 'C13', P, THR, "var (\n\tpacersMu sync.Mutex\n\tpacers   = map[[2]int64]chan struct{}{}\n)\n\nfunc Throttling[A any](ctx context.Context, in <-chan A, ops int, interval time.Duration) <-chan A {\n\tout := make(chan A, cap(in))\n\tkey := [2]int64{int64(ops), int64(interval)}\n\tpacersMu.Lock()\n\tctl, shared := pacers[key]\n\tif !shared {\n\t\tctl = make(chan struct{}, ops)\n\t\tpacers[key] = ctl\n\t}\n\tpacersMu.Unlock()\n\n\tgo func() {\n\t\tif shared {\n\t\t\treturn\n\t\t}\n\t\tdefer func() {\n\t\t\tpacersMu.Lock()\n\t\t\tdelete(pacers, key)\n\t\t\tpacersMu.Unlock()\n\t\t}()\n\t\tdefer close(ctl)\n", 'one pacer per (ops, interval), shared by the Throttling stages alive at the same time')
 EMIT = "func Emit[T any](ctx context.Context, cap int, frequency time.Duration, f F[int, T]) (<-chan T, <-chan error) {\n\tout := make(chan T, cap)\n\texx := f.errch(cap)\n\n\tgo func() {\n\t\tdefer close(out)\n\t\tdefer close(exx)\n\n\t\tvar (\n\t\t\tval T\n\t\t\terr error\n\t\t)\n\n\t\tfor i := 0; true; i++ {\n\t\t\ttime.Sleep(frequency)\n\n\t\t\tval, err = f.Apply(i)\n"
 mut('C11-emit-shared-index', 'C11', P, EMIT, "var (\n\temitMu  sync.Mutex\n\temitSeq int\n)\n\n" + EMIT.replace("\tgo func() {\n\t\tdefer close(out)", "\temitMu.Lock()\n\temitSeq = 0\n\temitMu.Unlock()\n\n\tgo func() {\n\t\tdefer close(out)").replace("\t\tfor i := 0; true; i++ {\n\t\t\ttime.Sleep(frequency)\n\n\t\t\tval, err = f.Apply(i)\n", "\t\tfor {\n\t\t\ttime.Sleep(frequency)\n\n\t\t\temitMu.Lock()\n\t\t\ti := emitSeq\n\t\t\temitSeq++\n\t\t\temitMu.Unlock()\n\t\t\tval, err = f.Apply(i)\n"), 'the index lives in a package-level variable: correct for one Emit at a time')
+mut('C05-fold-seeds-with-first-element', 'C05', P, "\t\tacc := m.Empty()\n\n\t\tvar x A\n\t\tfor x = range in {\n\t\t\tacc = m.Combine(acc, x)", "\t\tacc := m.Empty()\n\t\tfirst := true\n\n\t\tvar x A\n\t\tfor x = range in {\n\t\t\tif first {\n\t\t\t\tacc, first = x, false\n\t\t\t\tcontinue\n\t\t\t}\n\t\t\tacc = m.Combine(acc, x)", 'saves one Combine: empty <> x == x; the accumulator aliases the first element of the caller')
 
 EQUIVALENT = {'C02-no-container-check', 'C04-codec-get-skips-fmap', 'C06-throttle-data-no-ctx', 'C15-map-stale-key', 'C05-filter-or', 'C05-partition-swapped-capacity', 'C10-empty-counted-per-worker', 'C14-foreach-swallows-last-error', 'C19-slice-cons-append', 'C04-setter-get-leaks'}
 
